@@ -46,7 +46,7 @@ BRANCHES = [
     "Wavefunction.dicke_state:enumerate",
 ]
 EXHAUSTIVE = {"dicke": "all (n, k) with 1 <= n <= 10, 0 <= k <= n"}
-BUDGET = {"quick": (4, 18, 700), "thorough": (16, 150, 100000)}
+BUDGET = {"quick": (4, 30, 350), "thorough": (16, 150, 100000)}
 
 ISCLOSE_BAND = 1e-8 + 1e-5  # np.isclose(x, 1.0): |x-1| <= atol + rtol*1
 _TMP = None
@@ -415,6 +415,9 @@ def _post_probs(mon, call):
     for i, (e, p) in enumerate(zip(ent, flat)):
         if _is_num(e):
             exp = abs(_c(e)) ** 2
+            if not math.isfinite(exp):
+                mon.out_of_domain(name)
+                return
             if not (_is_num(p) and abs(_c(p) - exp) <= 1e-12):
                 mon.violation("probabilities-not-squared-magnitudes",
                               f"entry {i}: amplitude {e} probability {p!r} expected {exp!r}")
@@ -965,16 +968,19 @@ class Plan:
             new = _subs_entries(ent, m)
             fully = not any(isinstance(e, sympy.Basic) and e.free_symbols for e in new)
             if fully and want_ok:
-                # choose the last bound value so that the vector is normalised, if one entry is a bare symbol
+                # spread what is left of the unit norm over the entries that are a bare symbol of their own
                 bare = [k for k in chosen if sum(1 for e in ent if e == k) == 1 and
                         all((k not in e.free_symbols) or e == k for e in ent if isinstance(e, sympy.Basic))]
                 if bare:
-                    k = bare[-1]
-                    m2 = {kk: v for kk, v in m.items() if (kk if isinstance(kk, sympy.Symbol) else sympy.Symbol(kk)) != k}
+                    m2 = {kk: v for kk, v in m.items()
+                          if (kk if isinstance(kk, sympy.Symbol) else sympy.Symbol(kk)) not in bare}
                     part = _subs_entries(ent, m2)
                     others = math.fsum(abs(_c(e)) ** 2 for e in part if _is_num(e))
                     if others < 1:
-                        m2[k] = math.sqrt(1.0 - others) * rng.choice([1, -1])
+                        w = [rng.random() + 0.05 for _ in bare]
+                        tot = sum(w)
+                        for k, wk in zip(bare, w):
+                            m2[k] = math.sqrt((1.0 - others) * wk / tot) * rng.choice([1, -1, 1j])
                         m = m2
             if not fully and not want_ok:
                 # push the numeric part above 1
@@ -1039,8 +1045,14 @@ def initial_state(rng, cls):
         return arg, "nd", (n, 1), v
     # symbolic / mixed
     pool = rng.sample(SYMBOLS, rng.randint(1, 3))
+    distinct = rng.random() < 0.5  # every symbolic position holds its own bare symbol
+    names = rng.sample(SYMBOLS + [f"a{i}" for i in range(12)], n) if distinct else None
+
+    def sym_entry(i):
+        return sympy.Symbol(names[i]) if distinct else rand_sym_entry(rng, pool)
+
     if cls == "hist_symbolic":
-        ent = [rand_sym_entry(rng, pool) for _ in range(n)]
+        ent = [sym_entry(i) for i in range(n)]
     else:
         k = rng.randint(1, max(1, n - 1)) if n > 1 else 1
         sym_at = set(rng.sample(range(n), k))
@@ -1049,7 +1061,7 @@ def initial_state(rng, cls):
         ent = []
         for i in range(n):
             if i in sym_at:
-                ent.append(rand_sym_entry(rng, pool))
+                ent.append(sym_entry(i))
             else:
                 z = u[i] * math.sqrt(budget)
                 ent.append(rand_num_entry_value(rng, _r(abs(z))))
@@ -1419,7 +1431,7 @@ def _saveload_case(ctx):
             if kind == "symbolic":
                 ctx.mon.note(f"saveload:symbolic-save-refused:{type(e).__name__}")  # nothing numeric to store
                 return
-            ctx.check("save-load", False,
+            ctx.check("save-raises" + (":symbol-free-matrix-store" if before[0] == "mat" else ""), False,
                       f"save_wavefunction raised {e!r} for a symbol-free wavefunction ({kind}; store = "
                       f"{before[0]}{before[1]}) {short_entries(before[2])}")
             return
